@@ -17,14 +17,14 @@ POLL = Z.ZMQ_POLL_TIMEOUT
 
 
 class Pipeline:
-    def __init__(self, e, max_steps=600, horizon=None):
+    def __init__(self, e, max_steps=600, horizon=None, sub_delay=40):
         self.e = e
         Z.zmq = SIM
         Z.ZMQContext.context = (None, 0)
         self.net = simnet.Net(e, max_steps=max_steps)
         self.net.horizon = horizon
-        # slow joiner, adversarial order: the request (PUSH) connection is up at once, the subscription (SUB) 40 ms later
-        self.net.conn_delay_fn = lambda sock: 40 if sock.kind == simnet.SUB else 0
+        # slow joiner, adversarial order: the request (PUSH) connection is up at once, the subscription (SUB) `sub_delay` ms later (libzmq reconnects each socket on its own timer, ZMQ_RECONNECT_IVL = 100 ms)
+        self.net.conn_delay_fn = lambda sock: sub_delay if sock.kind == simnet.SUB else 0
         CLOCK.source = lambda: self.net.now
         FM.time = types.SimpleNamespace(time=lambda: self.net.now // 1000 if isinstance(self.net.now, int) else 0, sleep=lambda s: None)
         self.log = {}          # filter name -> list of process() inputs as {topic: seq}
@@ -57,7 +57,7 @@ class Pipeline:
                             if at_end == 'exit': self.exit('source exhausted')
                             if at_end == 'error': raise RuntimeError('source failed')
                             net.current.sleep(POLL); return None
-                        if frame_interval: net.current.sleep(frame_interval)
+                        if frame_interval and self.n > 0: net.current.sleep(frame_interval)      # the first frame of an incarnation is ready at once
                         seq = self.n; self.n += 1
                         pl.sent[name].append(seq); pl.pub_times[name].append(net.now)
                         return {'main': Frame({'seq': seq})}
